@@ -1,5 +1,5 @@
 (** C12 — every numeral constructor yields the canonical, decodable encoding of its number *)
-From LC Require Import Spec.Encodings Model.Convert Proofs.Convert Gen.Terms Proofs.BinaryArith.
+From LC Require Import Spec.Encodings Model.Convert Proofs.Convert Gen.Terms Proofs.BinaryArith Gen.ConvertSrc Proofs.ConvertSrcTie.
 
 (** the loops of the model compute the documented closed forms, for every n *)
 Theorem C12_shapes : forall n,
@@ -10,6 +10,13 @@ Proof.
   - apply into_church_spec. - apply into_scott_spec. - apply into_parigot_spec.
   - apply into_stumpfu_spec. - apply into_binary_spec.
 Qed.
+
+(** The unary constructors REGENERATED from src/data/num/convert.rs on every run (Gen/ConvertSrc.v,
+    lib/trans_convert.py) produce the closed forms (which C12_closed / _normal / _decode are about). *)
+Theorem C12_src_shapes : forall n,
+  CSrc.into_church n = church n /\ CSrc.into_scott n = scott n /\ CSrc.into_parigot n = parigot n /\
+  CSrc.into_stumpfu n = stumpfu n.
+Proof. exact src_shapes. Qed.
 
 Theorem C12_closed : forall n,
   closed (church n) = true /\ closed (scott n) = true /\ closed (parigot n) = true /\
@@ -78,6 +85,7 @@ Theorem C12_binary_large : forall n : N, binary_N n = binary (N.to_nat n) /\ dec
 Proof. intros n. split; [apply binary_N_spec|apply dec_binary_N_ok]. Qed.
 
 Print Assumptions C12_shapes.
+Print Assumptions C12_src_shapes.
 Print Assumptions C12_closed.
 Print Assumptions C12_normal.
 Print Assumptions C12_decode.
